@@ -225,6 +225,20 @@ func (s c18Suite) Gen(rng *Rng, tier string, w *bufio.Writer, stats *Stats) {
 		nDB, perDB = 100, 20
 	}
 	caseNo := 0
+	// scale boundary: the thorough tier crosses 65536 kind combinations; the quick tier runs the same ops on a small
+	// proxy and relies on the width facts of Props/C18Widths for the boundary itself
+	scaleN := 40
+	if tier == "thorough" {
+		scaleN = 65537
+	}
+	caseNo++
+	fmt.Fprintf(w, "# case %d scale n=%d\n", caseNo, scaleN)
+	fmt.Fprintln(w, "reset")
+	fmt.Fprintf(w, "scale %d\n", scaleN)
+	fmt.Fprintf(w, "scaledump %s\n", Pick(rng, []string{"none", "gzip", "zstd"}))
+	fmt.Fprintln(w, "scaleverify")
+	fmt.Fprintln(w, "scalemutate")
+	stats.Inc("cases")
 	for d := 0; d < nDB; d++ {
 		bigInts := d%6 == 5 // int64 beyond 2^53 round-trip exactly since the UseNumber fix
 		graphs := genGraphs(rng, bigInts, stats)
@@ -378,6 +392,14 @@ func (r *c18Runner) Step(_ []string, raw string) string {
 		return r.dump(t)
 	case (len(t) == 6 || len(t) == 7) && t[0] == "idump":
 		return r.idump(t)
+	case len(t) == 2 && t[0] == "scale":
+		return r.scale(t[1])
+	case len(t) == 2 && t[0] == "scaledump":
+		return r.scaleDump(t[1])
+	case len(t) == 1 && t[0] == "scaleverify":
+		return r.scaleVerify(false)
+	case len(t) == 1 && t[0] == "scalemutate":
+		return r.scaleVerify(true)
 	case len(t) == 2 && t[0] == "load":
 		return r.load(t)
 	case len(t) == 1 && t[0] == "loaded":
@@ -504,6 +526,103 @@ func (r *c18Runner) dumpObservation(m *retriever.Manifest) string {
 		}
 	}
 	return sb.String()
+}
+
+// ---- scale boundary: n nodes with n distinct kind combinations (node i carries kind K<j> for every set bit j of i),
+// relationships touching the nodes with the three highest combination references. 65537 combinations cross the
+// 16-bit boundary of a reference table.
+
+func scaleKinds(i int) []string {
+	var ks []string
+	for j := 0; i>>j != 0; j++ {
+		if i>>j&1 == 1 {
+			ks = append(ks, "K"+strconv.Itoa(j))
+		}
+	}
+	return ks
+}
+
+func (r *c18Runner) scale(nTok string) string {
+	n, err := strconv.Atoi(nTok)
+	if err != nil || n < 4 || n > 1<<17 {
+		return "bad-op"
+	}
+	*r = c18Runner{obs: r.obs, stats: r.stats, src: newSrcDB()}
+	r.src.step([]string{"graph", "default"})
+	for i := 0; i < n; i++ {
+		r.src.db.AddNode("default", uint64(i), scaleKinds(i), nil)
+	}
+	r.src.db.AddEdge("default", 1, uint64(n-2), 0, "R", nil)
+	r.src.db.AddEdge("default", 2, uint64(n-1), 1, "R", nil)
+	r.src.db.AddEdge("default", 3, uint64(n-3), uint64(n-1), "R", nil)
+	r.stats.Inc("scale.graphs")
+	if n > 65536 {
+		r.stats.Inc("scale.beyond_16_bit")
+	}
+	return "ok"
+}
+
+// scaleDump: `ok n=<nodes> e=<relationships> combos=<node kind combinations> ep=<endpoint key>*<count>,…`
+func (r *c18Runner) scaleDump(codecTok string) string {
+	codec, ok := codecOf(codecTok)
+	if !ok || len(r.src.targets) == 0 {
+		return "bad-op"
+	}
+	r.files, r.manifest, r.dst, r.back = nil, nil, nil, nil
+	return withTempDir(func(dir string) string {
+		out := dir + "/out"
+		opts := retriever.DefaultDumpOptions(out)
+		opts.Compression, opts.BatchSize, opts.ShardSize = codec, 10000, 1000
+		res, err := retriever.Dump(context.Background(), r.src.db, "fake", r.src.targets, opts)
+		if err != nil {
+			return "err " + retrErrClass(err)
+		}
+		r.files, r.codec, r.shard = readTree(out), codec, 1000
+		m := res.Manifest
+		r.manifest = &m
+		if m.Metrics == nil || len(m.Metrics.Graphs) != 1 {
+			return "err no-metrics"
+		}
+		gm := m.Metrics.Graphs[0]
+		var eps []string
+		for _, k := range sortedKeys(gm.EndpointKindHistogram) {
+			eps = append(eps, fmt.Sprintf("%s*%d", k, gm.EndpointKindHistogram[k]))
+		}
+		return fmt.Sprintf("ok n=%d e=%d combos=%d ep=%s", gm.NodeCount, gm.EdgeCount, len(gm.NodeKindHistogram), strings.Join(eps, ","))
+	})
+}
+
+// scaleVerify: Load the dump and Verify it; with mutate the second relationship is first re-pointed to start at the
+// node without kinds (a different kind combination, the same degrees overall): Verify must then report a mismatch.
+func (r *c18Runner) scaleVerify(mutate bool) string {
+	if r.files == nil {
+		return "bad-op"
+	}
+	if !mutate || r.dst == nil {
+		r.dst, r.back = NewFakeDB(), nil
+		ans := withTempDir(func(dir string) string {
+			if err := writeFileTree(dir, r.files); err != nil {
+				return "err tempdir"
+			}
+			opts := retriever.DefaultLoadOptions(dir)
+			if _, err := retriever.Load(context.Background(), r.dst, "fake", opts); err != nil {
+				return "err " + retrErrClass(err)
+			}
+			return ""
+		})
+		if ans != "" {
+			return ans
+		}
+	}
+	if mutate {
+		g := r.dst.Graph("default")
+		if len(g.Edges) < 2 || len(g.Nodes) < 1 {
+			return "bad-op"
+		}
+		g.Edges[1].Start = g.Nodes[0].ID
+		r.stats.Inc("scale.mutations")
+	}
+	return r.verify([]string{"verify", "10000"})
 }
 
 // idump: the dump interrupted once (crash at hook point k, or a DB read error at fetch f after m records) and
